@@ -234,6 +234,58 @@ def check_load_conf(ctx):
     shutil.rmtree(root, ignore_errors=True)
 
 
+def check_load_conf_extras(ctx):
+    """what `load_conf` adds to the merged mappings: `dataset_name` (directory name without `.arim`), `root_dir`, `result_dir`
+    (the directory itself, or the configured one resolved against it), and the file-path keys (`filename`, `datafile`, at
+    any depth, in the base file or in a fragment) made absolute against the directory — and nothing else changed"""
+    import pathlib
+
+    import yaml
+
+    from arim.io import native
+
+    rng = ctx.rng
+    root = CACHE / f"c20x-{ctx.seed}-{ctx.tier}"
+    shutil.rmtree(root, ignore_errors=True)
+    for it in range(12 * ctx.scale):
+        name = f"set{it}" + (".arim" if it % 2 == 0 else "")
+        d = root / name
+        (d / "conf.d").mkdir(parents=True)
+        (d / "out" / "deep").mkdir(parents=True)
+        base = {"frame": {"datafile": "data/a.mat", "instrument_delay": 0}, "scat": {"filename": "s.mat", "kind": "file"}, "other": {"name": "x/y", "file_name": "untouched.txt"}}
+        frag = {"frame": {"datafile": "data/b.mat"}, "extra": {"deep": {"filename": "../up.mat"}}}
+        use_result = it % 3
+        if use_result == 1:
+            base["result_dir"] = "out"
+        elif use_result == 2:
+            frag["result_dir"] = "out/deep"
+        (d / "conf.yaml").write_text(yaml.safe_dump(base))
+        (d / "conf.d" / "20_f.yaml").write_text(yaml.safe_dump(frag))
+        cj = {"op": "load_conf_extras", "dir": name, "base": base, "fragment": frag}
+        ctx.case(("lcx", it), True)
+        ctx.count("load_conf_extras")
+        try:
+            c = native.load_conf(d)
+            c_raw = native.load_conf(d, filepath_keys=False)
+        except Exception as e:
+            ctx.violate(f"load_conf raised {type(e).__name__}: {str(e)[:100]}", cj, {"kind": "load_extras"})
+            continue
+        rd = d.resolve()
+        want_result = rd if use_result == 0 else (rd / ("out" if use_result == 1 else "out/deep"))
+        ok = (c["dataset_name"] == f"set{it}" and pathlib.Path(c["root_dir"]) == rd and pathlib.Path(c["result_dir"]) == want_result
+              and c["frame"]["datafile"] == str(rd / "data/b.mat") and c["scat"]["filename"] == str(rd / "s.mat")
+              and c["extra"]["deep"]["filename"] == str(rd / "../up.mat") and c["other"] == base["other"] and c["frame"]["instrument_delay"] == 0
+              and c["scat"]["kind"] == "file")
+        ok_raw = (c_raw["frame"]["datafile"] == "data/b.mat" and c_raw["scat"]["filename"] == "s.mat" and c_raw["extra"]["deep"]["filename"] == "../up.mat"
+                  and c_raw["dataset_name"] == f"set{it}")
+        if not ok:
+            ctx.violate(f"load_conf: dataset_name / root_dir / result_dir / absolute file paths are not as documented: got dataset_name={c['dataset_name']!r}, "
+                        f"result_dir={c['result_dir']}, frame.datafile={c['frame']['datafile']!r}, scat.filename={c['scat']['filename']!r}, other={c['other']}", cj, {"kind": "load_extras"})
+        if not ok_raw:
+            ctx.violate("load_conf(filepath_keys=False) still rewrites file paths (or loses keys)", cj, {"kind": "load_extras"})
+    shutil.rmtree(root, ignore_errors=True)
+
+
 def check_builders(ctx):
     import arim
     from arim.io import native
@@ -287,6 +339,25 @@ def check_builders(ctx):
                 ctx.violate("probe_from_conf does not place the probe as configured (reference element at O, then tilt about Oy, then standoff)", cj2, {"kind": "probe_location"})
         except Exception as e:
             ctx.violate(f"probe_from_conf raises {type(e).__name__} on a valid probe_location", cj2, {"kind": "probe_location"})
+        # probe from the library of known probes: a fresh object each time, same as the registry's; both keys together are refused
+        if _ % 10 == 0:
+            import arim as _ar
+            from arim import config as _cfg
+            for key in list(_ar.probes.keys())[:3]:
+                ctx.count("probe_key")
+                p_a = native.probe_from_conf({"probe_key": key}, apply_probe_location=False)
+                p_b = _ar.probes[key]
+                if p_a is p_b or not (np.array_equal(p_a.locations.coords, p_b.locations.coords) and p_a.frequency == p_b.frequency and p_a.numelements == p_b.numelements):
+                    ctx.violate(f"probe_from_conf(probe_key={key!r}) is not a fresh copy of the library probe", {"op": "probe_key", "key": key}, {"kind": "probe_from_conf"})
+                p_a.translate([0.0, 0.0, -1e-2])
+                p_c = native.probe_from_conf({"probe_key": key}, apply_probe_location=False)
+                if not np.array_equal(p_c.locations.coords, p_b.locations.coords):
+                    ctx.violate(f"moving a probe built from probe_key={key!r} changed the next probe built from the same key", {"op": "probe_key", "key": key}, {"kind": "conf_aliased"})
+                try:
+                    native.probe_from_conf({"probe_key": key, "probe": conf["probe"]}, apply_probe_location=False)
+                    ctx.violate("probe_from_conf accepts 'probe' and 'probe_key' together (documented as mutually exclusive)", {"op": "probe_key", "key": key}, {"kind": "probe_from_conf"})
+                except Exception:
+                    pass   # (the unchanged code refuses with AttributeError: `config.InvalidConf` does not exist; a refusal all the same)
         # material
         vl, vt, rho = float(rng.uniform(1000, 7000)), float(rng.uniform(500, 3500)), float(rng.uniform(500, 9000))
         mconf = {"longitudinal_vel": vl, "transverse_vel": vt, "density": rho, "state_of_matter": str(rng.choice(["solid", "liquid"])),
@@ -450,6 +521,7 @@ def run(ctx):
                 "non-trivial = overlapping keys / >= 2 fragments / >= 2 elements")
     check_merge(ctx)
     check_load_conf(ctx)
+    check_load_conf_extras(ctx)
     check_builders(ctx)
     check_brain(ctx)
     ctx.assumptions += ["YAML parsing, scipy.io.loadmat/savemat and the OS are external", "HDF5 (v7.3) exp_data files cannot be exercised: h5py is not installed"]
